@@ -105,6 +105,31 @@ pub fn set_clock(_now: u64) {
     helgoboss_midi::verif_hooks::set_now_millis(_now);
 }
 
+/// Whether ages adjacent to multiples of 2^16 ms are kept distinct as well (thorough tier).
+pub static WRAP16: AtomicBool = AtomicBool::new(false);
+
+/// Canonical age used in state identities: exact below `cap`; above it all ages are merged EXCEPT
+/// those adjacent to a multiple of 2^32 ms (and, in the thorough tier, of 2^16 ms): elapsed-time
+/// arithmetic truncated to 32 (16) bits wraps there, so such ages can behave differently from
+/// other old ages. Adjacent = 0, 1, 2 ms after or 1, 2 ms before the multiple.
+pub fn canon_age(age: u64, cap: u64) -> u64 {
+    if age < cap {
+        return age;
+    }
+    fn near(r: u64, m: u64) -> u64 {
+        if r < 3 {
+            1 + r
+        } else if r >= m - 2 {
+            3 + (m - r)
+        } else {
+            0
+        }
+    }
+    let c16 = if WRAP16.load(Ordering::Relaxed) && age >= (1 << 16) - 2 { near(age & 0xFFFF, 1 << 16) } else { 0 };
+    let c32 = if age >= (1u64 << 32) - 2 { near(age & 0xFFFF_FFFF, 1 << 32) } else { 0 };
+    cap + c16 * 8 + c32
+}
+
 /// 128-bit fingerprint of a value's derived `Debug` rendering, with every mock instant
 /// `Instant(t)` rewritten to its age `min(now - t, cap)`.
 pub fn debug_fp<T: Debug>(x: &T, now: u64, cap: u64) -> u128 {
@@ -129,7 +154,7 @@ pub fn debug_fp<T: Debug>(x: &T, now: u64, cap: u64) -> u128 {
                 t = t * 10 + (after[j] - b'0') as u64;
                 j += 1;
             }
-            let age = now.saturating_sub(t).min(cap);
+            let age = canon_age(now.saturating_sub(t), cap);
             out.extend_from_slice(b"Age(");
             let mut digits = [0u8; 20];
             let mut k = 20;
